@@ -358,6 +358,7 @@ impl LoginIdentity {
     #[verifier::external_body]
     pub fn save_folder_password(&mut self, folder_id: &VaultId, key: AccessKey) -> (r: core::result::Result<(), LoginError>)
         ensures
+            final(self).login_sum() == old(self).login_sum(),
             r is Ok ==> final(self).keys() == old(self).keys().insert(folder_id@, key@),
             r is Err ==> final(self).keys() == old(self).keys() || final(self).keys() == old(self).keys().insert(folder_id@, key@),
     { unimplemented!() }
@@ -443,6 +444,7 @@ impl From<BackendError> for AccountError { #[verifier::external_body] fn from(e:
 impl From<VaultError> for AccountError { #[verifier::external_body] fn from(e: VaultError) -> AccountError { AccountError::Other } }
 impl From<AuthnError> for AccountError { #[verifier::external_body] fn from(e: AuthnError) -> AccountError { AccountError::Authentication(e) } }
 impl From<LoginError> for AccountError { #[verifier::external_body] fn from(e: LoginError) -> AccountError { AccountError::Login(e) } }
+impl From<CoreError> for AccountError { #[verifier::external_body] fn from(e: CoreError) -> AccountError { AccountError::Other } }
 /// `sos_core::Paths`, `sos_backend::BackendTarget` — opaque
 #[verifier::external_body]
 pub struct Paths { _p: () }
@@ -466,6 +468,8 @@ impl ClientBaseStorage for ClientStorage {
     fn authenticated_user_mut(&mut self) -> (r: Option<&mut LoginIdentity>) { unimplemented!() }
 }
 impl ClientVaultStorage for ClientStorage {
+    #[verifier::external_body]
+    fn summaries(&self, _t: Internal) -> (r: &Vec<Summary>) { unimplemented!() }
     #[verifier::external_body]
     fn write_vault(&mut self, vault: &Vault, _t: Internal) -> (r: ClResult<Vec<u8>>) { unimplemented!() }
 }
@@ -558,3 +562,139 @@ impl Vault {
         ensures r.rest().len() == self@.secrets.len(), forall|i: int| 0 <= i < r.rest().len() ==> (#[trigger] r.rest()[i]).0@ == self@.secrets[i].0,
     { unimplemented!() }
 }
+
+// ===========================================================================
+// change_cipher (crates/account/src/convert.rs compare_cipher / convert_cipher, local_account.rs change_cipher)
+// ===========================================================================
+/// `#[derive(PartialEq, Eq)]` on `Cipher` (crates/core/src/crypto/cipher/mod.rs:22; the shared prelude keeps `Copy, Clone, Default`
+/// only): variant equality, written out
+impl PartialEq for Cipher {
+    fn eq(&self, other: &Cipher) -> (r: bool)
+        ensures r == (*self == *other),
+    {
+        match (self, other) {
+            (Cipher::XChaCha20Poly1305, Cipher::XChaCha20Poly1305) => true,
+            (Cipher::AesGcm256, Cipher::AesGcm256) => true,
+            (Cipher::X25519, Cipher::X25519) => true,
+            _ => false,
+        }
+    }
+}
+impl vstd::std_specs::cmp::PartialEqSpecImpl for Cipher {
+    open spec fn obeys_eq_spec() -> bool { true }
+    open spec fn eq_spec(&self, other: &Cipher) -> bool { *self == *other }
+}
+/// `#[derive(PartialEq, Eq)]` on `KeyDerivation` (key_derivation.rs:40): variant equality, written out
+impl PartialEq for KeyDerivation {
+    fn eq(&self, other: &KeyDerivation) -> (r: bool)
+        ensures r == (*self == *other),
+    {
+        match (self, other) {
+            (KeyDerivation::Argon2Id, KeyDerivation::Argon2Id) => true,
+            (KeyDerivation::BalloonHash, KeyDerivation::BalloonHash) => true,
+            _ => false,
+        }
+    }
+}
+impl vstd::std_specs::cmp::PartialEqSpecImpl for KeyDerivation {
+    open spec fn obeys_eq_spec() -> bool { true }
+    open spec fn eq_spec(&self, other: &KeyDerivation) -> bool { *self == *other }
+}
+/// the `#[default]` variant of `KeyDerivation` (key_derivation.rs:44)
+pub open spec fn kdf_or_default(o: Option<KeyDerivation>) -> KeyDerivation { match o { Some(k) => k, None => KeyDerivation::Argon2Id } }
+/// R12 `Option<KeyDerivation>::unwrap_or_default()` (core/src/option.rs: the value, or `KeyDerivation::default()`; Verus gives
+/// the derived `Default` no spec)
+#[verifier::external_body]
+pub fn kdf_unwrap_or_default(o: Option<KeyDerivation>) -> (r: KeyDerivation)
+    ensures r == kdf_or_default(o),
+{ unimplemented!() }
+/// **Assumption VAULT-RT-ROWS**: what `encode` produced for a vault decodes to the same vault (C14 for whole vaults: unit
+/// vaultcodec `lemma_roundtrip_Header` + `lemma_roundtrip_Contents`; one row per id, prelude/vault_types.rs axiom_indexmap_distinct).
+/// Not broadcast.
+pub axiom fn axiom_vault_roundtrip(v: VaultV)
+    requires m_distinct(v.secrets),
+    ensures dec_Vault(enc_Vault(v)) == Some(v);
+
+pub open spec fn sviews(s: Seq<Summary>) -> Seq<SummaryV> { Seq::new(s.len(), |i: int| s[i]@) }
+/// `Iterator::filter` as a function on the views: the elements `keep` accepts, in order
+pub open spec fn filt(s: Seq<SummaryV>, keep: spec_fn(SummaryV) -> bool) -> Seq<SummaryV>
+    decreases s.len(),
+{
+    if s.len() == 0 { Seq::empty() } else {
+        let sub = filt(s.drop_last(), keep);
+        if keep(s.last()) { sub.push(s.last()) } else { sub }
+    }
+}
+/// the closure answers exactly `keep` (on the view)
+pub open spec fn answers<F: Fn(&&Summary) -> bool>(p: F, keep: spec_fn(SummaryV) -> bool) -> bool {
+    forall|x: Summary, b: bool| #[trigger] p.ensures((&&x,), b) ==> b == keep(x@)
+}
+/// R12 `$v.iter().filter(|s| $body).cloned().collect::<Vec<_>>()` on a `&[Summary]` (core `Iterator::filter`: "an iterator that
+/// yields only the elements for which the closure returns true", `cloned`, `collect`) — written out and VERIFIED
+pub fn vfilter_cloned<F: Fn(&&Summary) -> bool>(v: &[Summary], p: F) -> (r: Vec<Summary>)
+    requires forall|s: &&Summary| #[trigger] p.requires((s,)),
+    ensures forall|keep: spec_fn(SummaryV) -> bool| #[trigger] answers(p, keep) ==> sviews(r@) == filt(sviews(v@), keep),
+{
+    let mut out: Vec<Summary> = Vec::new();
+    let mut i: usize = 0;
+    proof { assert(sviews(v@.take(0)) =~= Seq::<SummaryV>::empty()); }
+    while i < v.len()
+        invariant
+            0 <= i <= v@.len(),
+            forall|s: &&Summary| #[trigger] p.requires((s,)),
+            forall|keep: spec_fn(SummaryV) -> bool| #[trigger] answers(p, keep) ==> sviews(out@) == filt(sviews(v@.take(i as int)), keep),
+        decreases v@.len() - i,
+    {
+        let x: &Summary = &v[i];
+        let ghost out0 = out@;
+        let keep_it = p(&x);
+        if keep_it {
+            out.push(x.clone());
+        }
+        proof {
+            let s1 = sviews(v@.take(i as int + 1));
+            assert(s1.drop_last() =~= sviews(v@.take(i as int)));
+            assert(s1.last() == x@);
+            assert forall|keep: spec_fn(SummaryV) -> bool| #[trigger] answers(p, keep) implies sviews(out@) == filt(s1, keep) by {
+                assert(p.ensures((&x,), keep_it));
+                assert(keep_it == keep(x@));
+                if keep_it { assert(sviews(out@) =~= sviews(out0).push(x@)); } else { assert(out@ == out0); }
+            }
+        }
+        i += 1;
+    }
+    proof { assert(v@.take(v@.len() as int) =~= v@); }
+    out
+}
+/// `sos_login::IdentityFolder` — the identity vault of the signed-in user
+#[verifier::external_body]
+pub struct IdentityFolder { _p: () }
+impl IdentityFolder {
+    pub uninterp spec fn fsum(&self) -> SummaryV;
+    /// crates/login/src/identity_folder.rs `summary`: a clone of the identity vault's summary
+    #[verifier::external_body]
+    pub fn summary(&self) -> (r: Summary) ensures r@ == self.fsum(), { unimplemented!() }
+}
+impl LoginIdentity {
+    /// the summary of the identity (login) vault held in memory
+    pub uninterp spec fn login_sum(&self) -> SummaryV;
+    /// the identity vault file the user logs in from (ghost: the storage's `login_vfile`)
+    pub uninterp spec fn login_file(&self) -> Seq<u8>;
+    /// identity.rs `identity`: Err unless signed in
+    #[verifier::external_body]
+    pub fn identity(&self) -> (r: core::result::Result<&IdentityFolder, LoginError>)
+        ensures r is Ok ==> r->Ok_0.fsum() == self.login_sum(),
+    { unimplemented!() }
+    /// identity.rs:166 `login` -> identity_folder.rs `IdentityFolder::login`: reads the identity vault from storage, unlocks it
+    /// with `key`, the result replaces `self.identity` — the summary held in memory is the stored identity vault's
+    #[verifier::external_body]
+    pub fn login(&mut self, account_id: &AccountId, key: &AccessKey) -> (r: core::result::Result<(), LoginError>)
+        ensures
+            final(self).login_file() == old(self).login_file(),
+            r is Ok ==> (dec_Vault(old(self).login_file()) matches Some(v) && final(self).login_sum() == v.head.summary),
+            r is Err ==> final(self).login_sum() == old(self).login_sum() && final(self).keys() == old(self).keys(),
+    { unimplemented!() }
+}
+/// `sos_account::FolderCreate<()>` — opaque (the result of `import_folder_buffer` is dropped by `convert_cipher`)
+#[verifier::external_body]
+pub struct FolderCreate { _p: () }
